@@ -41,6 +41,9 @@ def configs(tier):
         else:
             for anns in ((1, 2) if flag in ("false_neg", "cat_shuffle") else (1,)):
                 out.append(dict(key=f"{flag},symbolic-ref,annotators={anns}", flags=[flag], ref=("sym", 2), anns=anns, cost=300 * anns))
+    # interactions between two perturbations (each judged against the corpus it was given)
+    out.append(dict(key="shift+false_neg,fixed-ref=0,annotators=1", flags=["shift", "false_neg"], ref=("fixed", 0), anns=1, budget=20, cost=3000, split=24))
+    out.append(dict(key="false_pos+false_neg,symbolic-ref,annotators=1", flags=["false_pos", "false_neg"], ref=("sym", 2), anns=1, budget=20, cost=2000, split=24))
     out.append(dict(key="include_ref,symbolic-ref,annotators=2", flags=[], ref=("sym", 2), anns=2, include_ref=True, cost=20))
     out.append(dict(key="named-annotators,symbolic-ref", flags=[], ref=("sym", 2), anns=["zoe", "abe"], cost=20))
     out.append(dict(key="all-flags,magnitude=0,symbolic-ref", flags=list(FLAGS), ref=("sym", 2), anns=2, m0=True, include_ref=True, budget=60, cost=100))
@@ -126,6 +129,23 @@ def harness(cfg, ns):
             ADDS.append((annotator, segment.start, segment.end, annotation))
             return orig_add(self, annotator, segment, annotation)
         co.Continuum.add = spy_add
+        STEPS = []          # (perturbation name, snapshot before, snapshot after) for every perturbation that ran, in order
+        saved_steps = {}
+
+        def snap_units(cc):
+            return {a: [(u.segment.start, u.segment.end, u.annotation) for u in cc._annotations[a]] for a in cc._annotations.keys()}
+        for meth, nm in (("shift_shuffle", "shift"), ("false_pos_shuffle", "false_pos"), ("false_neg_shuffle", "false_neg"),
+                         ("category_shuffle", "cat_shuffle"), ("splits_shuffle", "split")):
+            orig_m = getattr(cst.CorpusShufflingTool, meth)
+            saved_steps[meth] = orig_m
+
+            def wrapper(self_, continuum, *a, _o=orig_m, _n=nm, **k):
+                before = snap_units(continuum)
+                mag = self_.magnitude
+                r_ = _o(self_, continuum, *a, **k)
+                STEPS.append((_n, before, snap_units(continuum), mag))
+                return r_
+            setattr(cst.CorpusShufflingTool, meth, wrapper)
         try:
             corpus = tool.corpus_shuffle(anns, include_ref=bool(cfg.get("include_ref")), **{f: True for f in flags})
             if cfg.get("reuse"):
@@ -135,6 +155,8 @@ def harness(cfg, ns):
                 corpus = tool.corpus_shuffle(anns, shift=True, false_pos=True, false_neg=True, split=True, cat_shuffle=True)
         finally:
             co.Continuum.add = orig_add
+            for meth, orig_m in saved_steps.items():
+                setattr(cst.CorpusShufflingTool, meth, orig_m)
         if cfg.get("reuse"):
             o2 = [Obl("tool re-used at magnitude 0: annotators", list(corpus.annotators) == sorted(names), rz),
                   Obl("tool re-used: the first corpus is not touched by the second shuffle",
@@ -188,25 +210,35 @@ def harness(cfg, ns):
                     if L else z3.BoolVal(False)
             if not flags or cfg.get("m0"):
                 obls.append(Obl("magnitude-0/no-flag: annotator==reference", SymBool(z3.And(z3.BoolVal(len(us) == len(runits)), *[present(x, us) for x in runits])), rz))
-            if flags == ["cat_shuffle"]:
-                obls.append(Obl("cat_shuffle: segments kept", SymBool(z3.And(z3.BoolVal(len(us) == len(runits)), *[present(x, us, False) for x in runits])), rz))
-            if flags == ["false_neg"]:
-                obls.append(Obl("false_neg: only removes", SymBool(z3.And(z3.BoolVal(len(us) <= len(runits)), *[present(x, runits) for x in us])), rz))
-            if flags == ["false_pos"]:
-                obls.append(Obl("false_pos: only adds", SymBool(z3.And(z3.BoolVal(len(us) >= len(runits)), *[present(x, us) for x in runits])), rz))
-            if flags == ["shift"]:
-                obls.append(Obl("shift: keeps the number of units", len(us) == len(runits), rz, known=[K_COINC]))
-            if flags == ["split"]:
-                nsplit = core.s_int(m * cst.CorpusShufflingTool.SPLIT_FACTOR * Fraction(len(runits), 1))
-                tot = 0
-                for x in us:
-                    tot = tot + (x[1] - x[0])
-                tot_ref = 0
-                for x in runits:
-                    tot_ref = tot_ref + (x[1] - x[0])
-                obls.append(Obl("split: total duration kept", core.eq(tot, tot_ref), rz, known=[K_COINC]))
-                obls.append(Obl("split: one more unit per split", core.eq(nsplit + len(runits), len(us)), rz, known=[K_COINC, K_SHORT]))
-                obls.append(Obl("split: labels kept", all(lab in [r[2] for r in runits] for _, _, lab in us), rz))
+        # confinement of every perturbation that ran, judged against the corpus IT was given (any combination of flags)
+        def present(x, L, with_label=True):
+            return z3.Or(*[z3.And(lift(x[0]) == lift(y[0]), lift(x[1]) == lift(y[1]), z3.BoolVal((x[2] == y[2]) or not with_label)) for y in L]) \
+                if L else z3.BoolVal(False)
+        for (step, before, after, mag) in STEPS:
+            obls.append(Obl(f"{step}: annotators kept", list(before) == list(after), rz))
+            for a in before:
+                b_, a_ = before[a], after.get(a, [])
+                if step == "cat_shuffle":
+                    obls.append(Obl("cat_shuffle: segments kept", SymBool(z3.And(z3.BoolVal(len(a_) == len(b_)), *[present(x, a_, False) for x in b_])), rz, known=[K_COINC]))
+                elif step == "false_neg":
+                    obls.append(Obl("false_neg: only removes", SymBool(z3.And(z3.BoolVal(len(a_) <= len(b_)), *[present(x, b_) for x in a_])), rz))
+                elif step == "false_pos":
+                    obls.append(Obl("false_pos: only adds", SymBool(z3.And(z3.BoolVal(len(a_) >= len(b_)), *[present(x, a_) for x in b_])), rz))
+                elif step == "shift":
+                    obls.append(Obl("shift: keeps the number of units", len(a_) == len(b_), rz, known=[K_COINC]))
+                    obls.append(Obl("shift: labels kept", sorted(str(x[2]) for x in a_) == sorted(str(x[2]) for x in b_) or len(a_) != len(b_), rz))
+                elif step == "split":
+                    nsplit = core.s_int(mag * cst.CorpusShufflingTool.SPLIT_FACTOR * Fraction(len(runits), 1))
+                    tot, tot_b = 0, 0
+                    for x in a_:
+                        tot = tot + (x[1] - x[0])
+                    for x in b_:
+                        tot_b = tot_b + (x[1] - x[0])
+                    obls.append(Obl("split: total duration kept", core.eq(tot, tot_b), rz, known=[K_COINC]))
+                    obls.append(Obl("split: one more unit per split", core.eq(nsplit + len(b_), len(a_)), rz, known=[K_COINC, K_SHORT]))
+                    obls.append(Obl("split: labels kept", all(lab in [r[2] for r in b_] for _, _, lab in a_), rz))
+        obls.append(Obl("every requested perturbation ran once, in the documented order",
+                        [st_[0] for st_ in STEPS] == [f for f in ("shift", "false_pos", "false_neg", "cat_shuffle", "split") if f in flags], rz))
         return obls
     return h
 
@@ -252,6 +284,24 @@ def replay(case):
     m = F(case["magnitude"])
     flags = case["flags"]
     bad = []
+    STEPS = []
+
+    def snap_units(cc):
+        return {a: [(u.segment.start, u.segment.end, u.annotation) for u in cc._annotations[a]] for a in cc._annotations.keys()}
+    step_patches = []
+    for meth, nm in (("shift_shuffle", "shift"), ("false_pos_shuffle", "false_pos"), ("false_neg_shuffle", "false_neg"),
+                     ("category_shuffle", "cat_shuffle"), ("splits_shuffle", "split")):
+        orig_m = getattr(CorpusShufflingTool, meth)
+
+        def wrapper(self_, continuum, *a, _o=orig_m, _n=nm, **k):
+            before = snap_units(continuum)
+            mag = self_.magnitude
+            r_ = _o(self_, continuum, *a, **k)
+            STEPS.append((_n, before, snap_units(continuum), mag))
+            return r_
+        step_patches.append(mock.patch.object(CorpusShufflingTool, meth, wrapper))
+    for sp in step_patches:
+        sp.start()
     try:
         with mock.patch("numpy.random.uniform", uniform), mock.patch("numpy.random.normal", normal), mock.patch("numpy.random.random", random), \
                 mock.patch("numpy.random.randint", randint), mock.patch("numpy.random.choice", choice):
@@ -265,6 +315,27 @@ def replay(case):
         return dict(reproduced=None, detail=str(ex))
     except Exception as ex:     # noqa: BLE001
         return dict(reproduced=True, detail="corpus_shuffle raised " + repr(ex)[:300])
+    finally:
+        for sp in step_patches:
+            sp.stop()
+    # every perturbation that ran, judged against the corpus it was given
+    for (step, before, after, mag) in STEPS:
+        for a in before:
+            b_, a_ = before[a], after.get(a, [])
+            if step == "cat_shuffle" and [(x[0], x[1]) for x in a_] != [(x[0], x[1]) for x in b_]:
+                bad.append(f"{a}: category shuffle changed segments {b_} -> {a_}")
+            if step == "false_neg" and not set(a_) <= set(b_):
+                bad.append(f"{a}: false negatives added or changed units: {sorted(set(a_) - set(b_))} not in the corpus they were given")
+            if step == "false_pos" and not set(a_) >= set(b_):
+                bad.append(f"{a}: false positives removed units {sorted(set(b_) - set(a_))}")
+            if step == "shift" and len(a_) != len(b_):
+                bad.append(f"{a}: shift changed the number of units {len(b_)} -> {len(a_)}")
+            if step == "split":
+                nsplit = int(mag * CorpusShufflingTool.SPLIT_FACTOR * len(ref_units))
+                if len(a_) != len(b_) + nsplit:
+                    bad.append(f"{a}: {len(a_)} units after {nsplit} splits of {len(b_)}")
+                if abs(sum(e - s for s, e, _ in a_) - sum(e - s for s, e, _ in b_)) > 1e-6 * max(1.0, sum(e - s for s, e, _ in b_)):
+                    bad.append(f"{a}: total duration changed by splitting")
     anns = case["anns"]
     names = [f"annotator_{i}" for i in range(anns)] if isinstance(anns, int) else list(anns)
     want = sorted(names + (["ref"] if case["include_ref"] else []))
@@ -289,18 +360,4 @@ def replay(case):
         if not flags or m == 0:
             if us != ref_units:
                 bad.append(f"{a} != reference although nothing was to be changed")
-        if flags == ["cat_shuffle"] and [(s, e) for s, e, _ in us] != [(s, e) for s, e, _ in ref_units]:
-            bad.append(f"{a}: category shuffle changed segments {us}")
-        if flags == ["false_neg"] and not set(us) <= set(ref_units):
-            bad.append(f"{a}: false negatives added or changed units {us}")
-        if flags == ["false_pos"] and not set(us) >= set(ref_units):
-            bad.append(f"{a}: false positives removed units {us}")
-        if flags == ["shift"] and len(us) != len(ref_units):
-            bad.append(f"{a}: shift changed the number of units: {us}")
-        if flags == ["split"]:
-            nsplit = int(m * CorpusShufflingTool.SPLIT_FACTOR * len(ref_units))
-            if len(us) != len(ref_units) + nsplit:
-                bad.append(f"{a}: {len(us)} units after {nsplit} splits of {len(ref_units)}")
-            if abs(sum(e - s for s, e, _ in us) - sum(e - s for s, e, _ in ref_units)) > 1e-6 * max(1.0, sum(e - s for s, e, _ in ref_units)):
-                bad.append(f"{a}: total duration changed by splitting: {us}")
     return dict(reproduced=bool(bad), detail="; ".join(bad[:3])[:500])
